@@ -42,7 +42,11 @@ def trace_of(task, rec):
         elif k == "alive":
             ev.append({"e": "alive", "n": e["n"], "t": e["th"], "ids": list(e["ids"]), "settle": True})
     ev.append({"e": "returned", "n": 0, "t": 0, "ids": [], "settle": True})
-    return {"calls": sorted(needed), "cons": [sorted(cons[c]) for c in range(1, maxid + 1)], "outs": outs, "events": ev}
+    keep = []
+    if rec["outcome"] == "raised":
+        ec = rec.get("err_call", -1)
+        keep = sorted(s_ for s_, d, k in scn["edges"] if d == ec and k in ("pos", "kw") and s_ in needed)
+    return {"calls": sorted(needed), "cons": [sorted(cons[c]) for c in range(1, maxid + 1)], "outs": outs, "keep": keep, "events": ev}
 
 
 def _validate_batch(arg):
@@ -54,6 +58,32 @@ def _validate_batch(arg):
 def gen_tasks(n, seed, nmax):
     rng = random.Random(f"c16-{seed}")
     tasks = EC.gen_tasks("plain", n, seed + 16, opcode_frac=0.0, nmax=nmax)
+    # runs that go on after failures (error budget): a failed consumer has finished too; only the failure that run
+    # reports may keep its arguments (through the traceback of the reported exception)
+    ftasks = EC.gen_tasks("fail", n // 3, seed + 17, opcode_frac=0.0, nmax=nmax)
+    for t in ftasks:
+        t["opts"]["maxerr"] = rng.choice([1, 2, None, None])
+    tasks += ftasks
+    # several producer -> failing consumer pairs followed by further calls on few workers: after the second failure the
+    # worker moves on, so the second pair's result has to be gone while the run is still going
+    for i in range(max(4, n // 40)):
+        k, m = rng.randint(2, 3), rng.randint(2, 4)
+        nodes, edges, fails = [], [], {}
+        for j in range(k):
+            p_, c_ = 2 * j + 1, 2 * j + 2
+            nodes += [{"id": p_, "kind": "call"}, {"id": c_, "kind": "call"}]
+            edges.append([p_, c_, rng.choice(["pos", "kw"])])
+            fails[str(c_)] = {"n": 1, "exc": rng.choice(["ValueError", "KeyError", "Exception"])}
+        tail = list(range(2 * k + 1, 2 * k + m + 1))
+        nodes += [{"id": t_, "kind": "call"} for t_ in tail]
+        for a, b in zip(tail, tail[1:]):
+            if rng.random() < 0.5:
+                edges.append([a, b, "pos"])
+        scn = S.norm({"nodes": nodes, "edges": edges, "output": None})
+        scn["fails"] = fails
+        t = EC._mk(scn, rng, W=rng.choice([1, 1, 2]), sched=rng.choice(["default", "random"]), maxerr=None,
+                   strat=rng.choice([{"kind": "nonpreemptive"}, {"kind": "random", "p": 0.1}]), seed=seed * 41 + i)
+        tasks.append(t)
     for t in tasks:
         t["track_alive"] = True
         t["observer"] = "rec"
@@ -68,7 +98,8 @@ def gen_tasks(n, seed, nmax):
 def run(tier, seed):
     res = common.Result(PROP, tier, seed, "model_checking")
     res.assumptions = [
-        "fault-free runs (the property quantifies over plans, outputs, worker counts and schedulers); results are fresh weak-referenceable objects that do not reference their inputs",
+        "fault-free runs, and runs with failing calls that go on under an error budget; the arguments of the one call whose failure run reports may live until run raises "
+        "(the reported exception's traceback holds that call's frame); results are fresh weak-referenceable objects that do not reference their inputs",
         "a result counts as released if a weak reference to it is dead after gc.collect(); the harness keeps only ids",
         "a call that has returned is considered finished once the engine reports it completed or its worker thread has started something else",
     ]
@@ -77,10 +108,9 @@ def run(tier, seed):
     ft, fr, _ = EC.run_tasks(tasks)
     traces, keep = [], []
     for t, r in zip(ft, fr):
-        if r["outcome"] != "returned":
-            if r["outcome"] == "hang" or r.get("exc_type"):
-                res.coverage.setdefault("non_returning_executions", 0)
-                res.coverage["non_returning_executions"] += 1
+        if r["outcome"] != "returned" and not (r["outcome"] == "raised" and r.get("exc_type") == "CallError"):
+            res.coverage.setdefault("non_returning_executions", 0)
+            res.coverage["non_returning_executions"] += 1
             continue
         traces.append(trace_of(t, r))
         keep.append(t)
@@ -114,7 +144,7 @@ def run(tier, seed):
 def replay(w):
     t = w["witness"]["task"]
     ft, fr, _ = EC.run_tasks([t])
-    if fr[0]["outcome"] != "returned":
+    if fr[0]["outcome"] != "returned" and fr[0].get("exc_type") != "CallError":
         print("execution did not return:", fr[0]["outcome"])
         return 0
     tr = trace_of(ft[0], fr[0])
